@@ -2,7 +2,7 @@
 From Coq Require Import String.
 From Cvg Require Import Base GoTypes Re Unicode Matcher Dump Options Front Builder Gen Pipeline BaseCode.
 From Cvg.gen Require Extracted.
-From Cvg.proofs Require Import BuilderProofs BaseCodeProofs.
+From Cvg.proofs Require Import BuilderProofs BaseCodeProofs CutProofs.
 Open Scope N_scope.
 
 (** The only comments GenerateBaseCode removes from the file are those the
@@ -51,6 +51,23 @@ Theorem C11_functions_replace_marker_in_place :
     replace_first m text (pre ++ m ++ post) = pre ++ text ++ post.
 Proof. exact replace_first_spec. Qed.
 Print Assumptions C11_functions_replace_marker_in_place.
+
+(** The cut (the regexp .+M.*(\n|.)*?M replaced by M) and the replacement together: in a
+    printed text where the marker M occurs exactly twice — after a non-empty line start L
+    ("type X ") and after anything X (the rest of the interface, on the same line or on any
+    number of lines) — everything from the start of that line through the second marker is
+    replaced by the functions; every byte before ([pre], which ends a line or is empty) and
+    after ([post]) is kept. *)
+Theorem C11_interface_replaced_in_place :
+  forall m pre L X post fn,
+    m <> [] -> no_nl m -> L <> [] -> no_nl L ->
+    (pre = [] \/ exists p, pre = p ++ [10]) ->
+    (forall k, occ m (pre ++ L ++ m ++ X ++ m ++ post) k = true ->
+               k = (List.length pre + List.length L)%nat \/
+               k = (List.length pre + (List.length L + List.length m + List.length X))%nat) ->
+    replace_first m fn (cut m (pre ++ L ++ m ++ X ++ m ++ post)) = pre ++ fn ++ post.
+Proof. exact assemble_single_interface. Qed.
+Print Assumptions C11_interface_replaced_in_place.
 
 (** The output starts with the generated-code header of the source. *)
 Theorem C11_header :
